@@ -58,3 +58,19 @@ Example C09_example :
   unit_table p (join p [] [] base feed) feed =
   [("a", Expected, true); ("z", Unexpected, false); ("b", Blocklisted, false); ("d", ZeroBaseline, false); ("c", StrangeTF, false)]%string.
 Proof. vm_compute. reflexivity. Qed.
+
+(* a baseline unit that is in the feed without results (NaN): under the "drop" policy it leaves the joined data and is passed through
+   with the unexpected units -- it does not vanish --, under the "zero" policy it stays with zero results and zero percent *)
+Theorem C09_nan_row_passed_through : forall (p : params) (ft fm : list string) (base : list brow) (feed : list frow) (b : brow) (f : frow),
+  p_zero_policy p = false -> NoDup (map b_id base) -> In b base ->
+  find_feed feed (b_postal b) (b_id b) = Some f -> f_nan f = true ->
+  In (b_id b) (ids_of (unexpected (join p ft fm base feed) feed)).
+Proof. exact nan_row_passed_through. Qed.
+Print Assumptions C09_nan_row_passed_through.
+
+Theorem C09_nan_row_zeroed : forall (p : params) (ft fm : list string) (base : list brow) (feed : list frow) (b : brow) (f : frow),
+  p_zero_policy p = true -> In b base ->
+  find_feed feed (b_postal b) (b_id b) = Some f -> f_nan f = true ->
+  exists r, In r (join p ft fm base feed) /\ d_id r = b_id b /\ (d_rw r == 0)%Q /\ (d_pev r == 0)%Q.
+Proof. exact nan_row_zeroed. Qed.
+Print Assumptions C09_nan_row_zeroed.
